@@ -46,8 +46,11 @@ ROUND2 = z3.Function('round2_', z3.RealSort(), z3.RealSort())
 _POW = {}
 
 
+SQRT = z3.Function('sqrt_', z3.RealSort(), z3.RealSort())
+
+
 def pow_fn(c):
-    c = float(c)
+    c = float('%.12g' % float(c))      # 1/(n/252.) and 252./n differ in the last ulp: same function
     if c not in _POW:
         _POW[c] = z3.Function('pow_%s' % repr(c).replace('.', 'p').replace('-', 'm'), z3.RealSort(), z3.RealSort())
     return _POW[c]
@@ -126,9 +129,13 @@ class Undefined:
 
     def _bad(self, *a, **k):
         raise UndefinedUse(self.why)
-    __add__ = __radd__ = __sub__ = __rsub__ = __mul__ = __rmul__ = __truediv__ = __rtruediv__ = _bad
-    __lt__ = __le__ = __gt__ = __ge__ = __eq__ = __ne__ = __bool__ = __neg__ = __abs__ = __pow__ = _bad
-    __float__ = __round__ = sqrt = _bad
+
+    def _prop(self, *a, **k):          # arithmetic propagates like NaN
+        return self
+    __add__ = __radd__ = __sub__ = __rsub__ = __mul__ = __rmul__ = __truediv__ = __rtruediv__ = _prop
+    __neg__ = __abs__ = __pow__ = sqrt = _prop
+    __lt__ = __le__ = __gt__ = __ge__ = __eq__ = __ne__ = __bool__ = _bad
+    __float__ = __round__ = _bad
     __hash__ = None
 
     def __repr__(self):
@@ -157,7 +164,7 @@ class Sym:
         if isnan(o):
             return float('nan')
         if isinstance(o, Undefined):
-            return o._bad()
+            return o
         try:
             oe = R(o)
         except TypeError:
@@ -174,6 +181,8 @@ class Sym:
     def __truediv__(s, o):
         if isnan(o):
             return float('nan')
+        if isinstance(o, Undefined):
+            return o
         if isinstance(o, (int, float)) and not isinstance(o, bool) and o == 0:
             return Undefined('x/0')
         if _np is not None and isinstance(o, (_np.integer, _np.floating)) and o == 0:
@@ -264,7 +273,7 @@ class Sym:
         return Sym(r)
 
     def sqrt(s):
-        r = EX.newvar('sqrt', z3.RealSort())
+        r = SQRT(s.e)
         EX.assume(z3.And(r >= 0, r * r == s.e), tag=('sqrt', s.e, r))
         return Sym(r)
 
@@ -387,6 +396,28 @@ def var_names(e):
     return out
 
 
+def timed_check(solver, timeout_ms, *assumptions):
+    """solver.check() with z3's soft timeout plus a hard interrupt (nlsat can overrun the soft one by minutes)"""
+    import threading
+    solver.set('timeout', int(timeout_ms))
+    ctx = solver.ctx
+    fired = []
+
+    def kill():
+        fired.append(1)
+        ctx.interrupt()
+    t = threading.Timer(timeout_ms / 1000.0 + 2.0, kill)
+    t.daemon = True
+    t.start()
+    try:
+        r = solver.check(*assumptions)
+    except z3.Z3Exception:
+        r = z3.unknown
+    finally:
+        t.cancel()
+    return r
+
+
 class Explorer:
     def __init__(self, base=(), timeout_ms=10000):
         self.base = list(base)
@@ -406,6 +437,8 @@ class Explorer:
         self.pending = []
         self.names = {}
         self.marks = []        # user marks: (label, len(pc))
+        self._known_ids = {}
+        self._known_n = 0
         self.unknown_on_path = 0
 
     # fresh, deterministic-per-path variable
@@ -444,10 +477,9 @@ class Explorer:
         self.queries += 1
         t = time.time()
         s = z3.Solver()
-        s.set('timeout', self.tmo)
         s.add(*cons)
         s.add(cond)
-        r = s.check()
+        r = timed_check(s, self.tmo)
         self.qtime += time.time() - t
         if r == z3.unknown:
             self.unknown += 1
@@ -463,6 +495,13 @@ class Explorer:
         if z3.is_false(cond):
             return False
         i = len(self.trace)
+        # syntactic fast path (applies identically when a prefix is replayed): the condition or its negation is
+        # already a conjunct of the path condition
+        known = self._known()
+        if cond.get_id() in known:
+            return True
+        if z3.simplify(z3.Not(cond)).get_id() in known:
+            return False
         if i < len(self.prefix):
             b = self.prefix[i]
         else:
@@ -479,6 +518,14 @@ class Explorer:
         self.pc.append(cond if b else z3.Not(cond))
         self.tags.append(None)
         return b
+
+    def _known(self):
+        n = len(self.pc)
+        if self._known_n != n:
+            for c in self.pc[self._known_n:]:
+                self._known_ids[c.get_id()] = c
+            self._known_n = n
+        return self._known_ids
 
     def run_path(self, prefix, fn):
         """Execute fn once along `prefix` (then first-feasible choices).  Returns
